@@ -87,8 +87,10 @@ inductive Repl where
   | str  (raw : Str)      -- a plain `str`: parsed, then given the settings of the match's first character
   | astr (v : AStr)       -- an AnsiString / AnsiStr (used as is; a copy for AnsiStr)
 
+/-- `len(replace)`: the length of the text that is inserted for one match (a plain `str` is parsed,
+    so escape sequences in it do not count) -/
 def Repl.advance : Repl → Nat
-  | .str raw => raw.length
+  | .str raw => (AStr.setAnsi raw 0).1.len
   | .astr v => v.len
 
 /-- the `while` loop of `replace`; `fuel` bounds the number of iterations -/
